@@ -143,9 +143,25 @@ def check_selection(rec, sel, req, opt, curve_factory, shared=None):
                      "accept" if want else "reject"),
                   dict(case, previous=list(PREVIOUS)))
         PREVIOUS[:] = list(sel) if so2[0] == "ok" else []
+        # ... and on a new curve whose remembered pipeline (public attribute)
+        # is one that cannot be applied: what is REQUESTED decides
+        cur = curve_factory()
+        cur.preprocessing = list(UNAPPLICABLE[0])
+        so3 = _outcome(lambda: cur.apply_preprocessing(list(sel), {}))
+        rec.event("requests on a curve whose attribute holds an "
+                  "unapplicable pipeline")
+        rec.check((so3[0] == "ok") == want,
+                  "apply/acceptance-depends-on-attribute",
+                  "idnt.preprocessing = %s; apply_preprocessing(%s, {}) %s, "
+                  "expected %s" % (UNAPPLICABLE[0], sel, so3[:2],
+                                   "accept" if want else "reject"),
+                  dict(case, attribute=list(UNAPPLICABLE[0])))
+        if not want and sel:
+            UNAPPLICABLE[0] = list(sel)
 
 
 PREVIOUS = []
+UNAPPLICABLE = [["correct_tip_offset", "compute_tip_position"]]
 
 
 def run_shard(rec, tier, seed, shard, nshards):
@@ -225,6 +241,17 @@ def run_shard(rec, tier, seed, shard, nshards):
                       "unknown-id/accepted-on-repeat",
                       "idnt.preprocessing = %s; apply_preprocessing() twice "
                       "-> %s" % (sel, outs), case)
+            # ... while an explicit request decides on its own
+            cur = factory()
+            cur.preprocessing = list(sel)
+            good = list(sels[int(r2.integers(len(sels)))])
+            if r2.random() < .3:
+                good = []
+            og = _outcome(lambda: cur.apply_preprocessing(list(good), {}))
+            rec.check((og[0] == "ok") == apply_ok(good, req),
+                      "apply/acceptance-depends-on-attribute",
+                      "idnt.preprocessing = %s; apply_preprocessing(%s, {}) "
+                      "%s" % (sel, good, og[:2]), dict(case, request=good))
             first_bad = sel.index(bad)
             if apply_ok(sel[:first_bad], req) and ao[0] == "exc":
                 rec.check(ao[1] == "KeyError", "unknown-id/apply-type",
